@@ -158,7 +158,7 @@ def asan_run(scratch, prog, optimize, values_images, bufs, cc="gcc"):
         return "build-failed", p.stderr[-400:]
     inp = "".join("e %s\n" % m.hex() for m in values_images) + "".join("d %s\n" % b.hex() for b in bufs)
     env = dict(os.environ, ASAN_OPTIONS="detect_leaks=0:abort_on_error=0:exitcode=86", UBSAN_OPTIONS="print_stacktrace=1")
-    p = subprocess.run([exe], input=inp, capture_output=True, text=True, env=env, timeout=120)
+    p = subprocess.run([exe], input=inp, capture_output=True, text=True, env=env, timeout=3000)
     if p.returncode != 0:
         lines = [l for l in p.stderr.splitlines() if "ERROR" in l or "runtime error" in l or "SUMMARY" in l]
         return "fault", (lines[0] if lines else "rc=%d" % p.returncode)[:300]
